@@ -1,7 +1,7 @@
 """psv.props — which rules decide which property."""
 from . import core
 from .report import Check
-from .rules import cw, ed, mt, ts, vg, pm, ax
+from .rules import cw, ed, mt, ts, vg, pm, ax, kb
 
 
 def c18(tier):
@@ -146,7 +146,39 @@ def c16(tier):
     return C.finish()
 
 
-TABLE = {"C16": c16, "C15": c15, "C18": c18, "C08": c08, "C12": c12, "C20": c20, "C13": c13, "C07": c07}
+def c05(tier):
+    C = Check("C05", tier,
+              explanation="Memory-safety mechanisms of lookup and evaluation decided structurally on the instantiated kernels and entry points: "
+              "knot padding allocated/released with agreeing affine forms at every site (KB-1), margin-shift loops bounded first and entered only "
+              "from the boundary centres (KB-2), the SIMD lane cap dominates every lane store and core call with consistent constants (KB-3), "
+              "variable-length arrays have positive extents (KB-6), and lookup rejects unordered (NaN) coordinates (SC-4). Does not decide index "
+              "ranges inside the recurrences numerically (KB-5 not built) nor safety on tables that are not well-formed (C07).",
+              assumptions=["tables are well-formed (C07): nknots >= 2*order+2, naxes = nknots-order-1", "centres come from searchcenters"])
+    P = core.load(tier=tier)
+    kb.kb1(P, C)
+    kb.kb2(P, C)
+    kb.kb3(P, C)
+    n = kb.kb6(P, C)
+    kb.sc4(P, C)
+    C.extra["vla_declarators"] = n
+    C.extra["units"] = sorted(P.units.keys())
+    return C.finish()
+
+
+def c04(tier):
+    C = Check("C04", tier,
+              explanation="Centre lookup decided structurally: acceptance test equal to (first < x <= last) per dimension before any store, single "
+              "failure and success exits (SC-1); clamp targets, last-interval adjustment and search interval (SC-2); zero-on-failure wiring of "
+              "both call operators (SC-3). Does not decide termination of the binary search nor the bracket knot[c] <= x < knot[c+1] "
+              "(loop invariants over runtime knots).",
+              assumptions=["ordered (non-NaN) comparison semantics for SC-1; NaN is decided under C05 (SC-4)"])
+    P = core.load(tier=tier)
+    kb.sc123(P, C)
+    C.extra["units"] = sorted(P.units.keys())
+    return C.finish()
+
+
+TABLE = {"C05": c05, "C04": c04, "C16": c16, "C15": c15, "C18": c18, "C08": c08, "C12": c12, "C20": c20, "C13": c13, "C07": c07}
 
 
 def run(prop, tier):
